@@ -11,14 +11,14 @@ from .c01 import store, stored_codes, small_formats
 PROPERTY = 'C03'
 RULE = ("Under overflow='wrap': stored code must satisfy lo<=code<=hi AND code == ROUND(x) (mod 2^n_word) (two independent conditions; the model's OVERFLOW is not used); "
         "metamorphic: storing v+j*2^(n_word-n_frac), j in -3..3, stores the same code; register: add/sub/mul of two wrap operands into a wrap out_like of n_word bits "
-        "equals (ka op kb) mod 2^n_word, for n_word<=52 and 64..256; register-mixed: operands of independent formats (n_word<=52) delivered through out_like / out / numpy out= / call / config.op_out into a wrap register of a third format (n_word<=52 or 64..256, usually fewer fraction bits than the exact result, any rounding mode): code == ROUND(exact*2^n_frac) (mod 2^n_word). Generated: exhaustive quarter-LSB grid over 3x range for n_word<=6; Hypothesis formats up to 52 bits with bases "
+        "equals (ka op kb) mod 2^n_word, for n_word<=52 and 64..256; register-mixed: operands of independent formats (n_word<=52) delivered through out_like / out / numpy out= / call / config.op_out into a wrap register of a third format (n_word<=52 or 64..256, usually fewer fraction bits than the exact result, any rounding mode): code == ROUND(exact*2^n_frac) (mod 2^n_word); register-reduce: the same for sum / cumsum / dot of arrays accumulated into such a register (out=, method out_like=, numpy out=, call). Generated: exhaustive quarter-LSB grid over 3x range for n_word<=6; Hypothesis formats up to 52 bits with bases "
         "at multiples of 2^n_word +- small on both sides; n_word 64..256 with Python-int inputs up to 4*n_word bits (raw and integer-value mode; value mode with n_frac in {0,1,3,n_word//2,-1,-4,-8}, negative n_frac rounding exactly). "
         "Non-trivial = ROUND(x) outside [lo,hi]; distinct = distinct (format, rounding, route, input).")
 ASSUMPTIONS = ['core-domain inputs are exact doubles; wide formats use Python-int inputs only (float inputs into >=64-bit words are outside the statement)',
                'ROUND of the reference model is trusted (cross-checked relationally by C05)']
 EXHAUSTIVE = False    # the whole quantifier is not enumerated; complete sub-domains are listed in EXHAUSTIVE_SUBDOMAINS
 EXHAUSTIVE_SUBDOMAINS = {'quick': ['quarter-LSB grid over 3x range, n_word<=6, all n_frac, 5 roundings, wrap'], 'thorough': ['same, n_word<=7']}
-REQUIRED_CLASSES = {'register-mixed:exact>53bits-coarser-target': 500, 'wrapped': 500, 'wide': 300, 'wide:nfrac<0': 100, 'shift-invariance': 300, 'register': 300, 'resign': 500}
+REQUIRED_CLASSES = {'register-mixed:exact>53bits-coarser-target': 500, 'register-reduce:beyond-53-or-63-bits': 300, 'wrapped': 500, 'wide': 300, 'wide:nfrac<0': 100, 'shift-invariance': 300, 'register': 300, 'resign': 500}
 
 
 def wrap_ok(code, r, fmt):
@@ -238,6 +238,46 @@ def check_register_mixed(ctx, case):
             return
 
 
+def check_register_reduce(ctx, case):
+    """sum / cumsum / dot of arrays accumulated into a wrap register of another format (a MAC accumulator)."""
+    fa, fb, fd = tuple(case['fa']), tuple(case['fb']), tuple(case['fd'])
+    kas, kbs = [int(k) for k in case['ka']], [int(k) for k in case['kb']]
+    op, rounding = case['op'], case['rounding']
+    import fxpmath
+    F = C.Fxp()
+    ctx.ev()
+    vas, vbs = [M.value_of(k, fa[2]) for k in kas], [M.value_of(k, fb[2]) for k in kbs]
+    if op == 'sum':
+        exact = [sum(vas)]
+    elif op == 'cumsum':
+        exact = [sum(vas[:i + 1]) for i in range(len(vas))]
+    else:
+        exact = [sum(a * b for a, b in zip(vas, vbs))]
+    want = [M.ROUND(v * M.pow2(fd[2]), rounding) for v in exact]
+    sig = 'register-reduce/%s/%s' % (op, 'wide' if fd[1] >= 64 else 'core')
+
+    def do():
+        a = F(np.array(kas, dtype=np.int64), fa[0], fa[1], fa[2], raw=True)
+        b = F(np.array(kbs, dtype=np.int64), fb[0], fb[1], fb[2], raw=True)
+        mkreg = lambda: F(None, fd[0], fd[1], fd[2], overflow='wrap', rounding=rounding)
+        if op == 'dot':
+            return fxpmath.dot(a, b, out=mkreg()), a.dot(b, out_like=mkreg()), np.dot(a, b, out=mkreg()), mkreg()(a.dot(b))
+        fn = getattr(fxpmath, op)
+        return fn(a, out=mkreg()), getattr(a, op)(out_like=mkreg()), getattr(np, op)(a, out=mkreg()), mkreg()(fn(a))
+    ok, res = ctx.guard(case, do, sig_prefix=sig + '/')
+    if not ok:
+        return
+    for name, z in zip(('out', 'method-out_like', 'numpy-out', 'store-call'), res):
+        try:
+            ks = C.flat(C.codes(z))
+        except ValueError as e:
+            ctx.fail('%s/%s/non-integer-code' % (sig, name), case, {'error': str(e)})
+            return
+        if C.fmt_of(z) != (bool(fd[0]), fd[1], fd[2]) or len(ks) != len(want) or not all(wrap_ok(k, r, fd) for k, r in zip(ks, want)):
+            ctx.fail('%s/%s/congruence' % (sig, name), case, {'rounded': [str(r) for r in want], 'codes': [str(k) for k in ks], 'fmt': C.fmt_of(z)})
+            return
+
+
 def check_resign(ctx, case):
     """A wrap register re-interpreted in place (only the signedness, or the word, changes): same bits modulo 2^n_word."""
     fmt = tuple(case['fmt'])
@@ -277,7 +317,7 @@ def check_resign(ctx, case):
             return
 
 
-CHECKS = {'grid': check_grid, 'wrap': check_wrap, 'wide': check_wide, 'register': check_register, 'register-mixed': check_register_mixed, 'resign': check_resign}
+CHECKS = {'grid': check_grid, 'wrap': check_wrap, 'wide': check_wide, 'register': check_register, 'register-mixed': check_register_mixed, 'register-reduce': check_register_reduce, 'resign': check_resign}
 
 
 def replay(ctx, case):
@@ -436,6 +476,38 @@ def body_register_mixed(ctx, case):
 
 
 @st.composite
+def st_register_reduce_case(draw):
+    fa = draw(C.st_fmt(max_w=52, min_w=2, f_lo=0, f_hi_extra=0))
+    fb = draw(C.st_fmt(max_w=52, min_w=2, f_lo=0, f_hi_extra=0))
+    op = draw(st.sampled_from(['sum', 'cumsum', 'dot', 'dot']))
+    if op != 'dot':
+        fb = fa
+    n = draw(st.integers(1, 5))
+    exact_f = fa[2] + fb[2] if op == 'dot' else fa[2]
+    wide = draw(st.integers(0, 2)) == 0
+    wd = draw(st.sampled_from(WIDE_W)) if wide else draw(C.st_word(52, 2))
+    fd = min(draw(st.one_of(st.sampled_from(sorted({max(exact_f // 2, 0), fa[2], 0, exact_f})), st.integers(0, max(exact_f + 8, 1)))), wd + 8)
+    if wide and draw(st.booleans()):
+        fd = draw(st.integers(0, min(wd, exact_f + 70)))        # a wide accumulator with many more fraction bits than the operands
+    sd = fa[0] or fb[0] or draw(st.booleans())
+    return {'check': 'register-reduce', 'fa': list(fa), 'fb': list(fb), 'fd': [sd, wd, fd], 'op': op, 'rounding': draw(st.sampled_from(C.ROUNDINGS)),
+            'ka': [draw(C.st_code(fa)) for _ in range(n)], 'kb': [draw(C.st_code(fb)) for _ in range(n)]}
+
+
+def body_register_reduce(ctx, case):
+    fa, fb, fd = case['fa'], case['fb'], case['fd']
+    bits = (fa[1] + fb[1] if case['op'] == 'dot' else fa[1]) + 3
+    exact_f = fa[2] + fb[2] if case['op'] == 'dot' else fa[2]
+    ctx.cls('register-reduce')
+    nt = bits > 53 or bits + max(fd[2] - exact_f, 0) >= 63
+    if nt:
+        ctx.cls('register-reduce:beyond-53-or-63-bits')
+        ctx.nontrivial(('regred', repr(sorted((k, repr(v)) for k, v in case.items()))))
+    ctx.sample(case, nt)
+    check_register_reduce(ctx, case)
+
+
+@st.composite
 def st_resign_case(draw):
     wide = draw(st.integers(0, 3)) == 0
     w = draw(st.sampled_from(WIDE_W)) if wide else draw(C.st_word(52, 1))
@@ -462,7 +534,7 @@ def body_resign(ctx, case):
 
 def task_hyp(ctx, which, n):
     stg, body = {'wrap': (st_wrap_case, body_wrap), 'wide': (st_wide_case, body_wide), 'register': (st_register_case, body_register),
-                 'register-mixed': (st_register_mixed_case, body_register_mixed), 'resign': (st_resign_case, body_resign)}[which]
+                 'register-mixed': (st_register_mixed_case, body_register_mixed), 'register-reduce': (st_register_reduce_case, body_register_reduce), 'resign': (st_resign_case, body_resign)}[which]
     run_given(ctx, stg(), body, n, ctx.task_seed)
 
 
@@ -480,6 +552,8 @@ def tasks(tier, scale=1.0):
         out.append(('hyp-register-%d' % i, 'task_hyp', {'which': 'register', 'n': nh // 2}))
     for i in range(4):
         out.append(('hyp-register-mixed-%d' % i, 'task_hyp', {'which': 'register-mixed', 'n': nh // 2}))
+    for i in range(2):
+        out.append(('hyp-register-reduce-%d' % i, 'task_hyp', {'which': 'register-reduce', 'n': nh // 2}))
     for i in range(2):
         out.append(('hyp-resign-%d' % i, 'task_hyp', {'which': 'resign', 'n': nh}))
     return out
